@@ -128,15 +128,22 @@ def check(ctx):
                 return v
             np.random.seed(seed)
             np.random.choice = tap
+            # the size of a round is the library constant as it is when the selection runs (a user may set it)
+            ts0 = L['c'].TOURNAMENT_SIZE
+            tsize = C.rng.choice([ts0, ts0, ts0, 3, 1, 4])
+            L['c'].TOURNAMENT_SIZE = tsize
             try:
                 sel = g.tournament_selection(fit, nsel)
             finally:
                 np.random.choice = orig
-            rp = dict(how='tournament', fitness=fit, n=nsel, seed=seed)
-            ts = L['c'].TOURNAMENT_SIZE
+                L['c'].TOURNAMENT_SIZE = ts0
+            rp = dict(how='tournament', fitness=fit, n=nsel, seed=seed, tsize=tsize)
+            ts = tsize
             rounds = [drawn[i * ts:(i + 1) * ts] for i in range(nsel)]
             if len(sel) != nsel or len(drawn) != nsel * ts:
-                C.issue('tournament-length', 'oracle', rp, selected=len(sel))
+                C.issue('tournament-length', 'oracle', rp, selected=len(sel), draws=len(drawn), expected_draws=nsel * ts)
+                C.case(key=('t', seed, tuple(fit), nsel), nontrivial=nsel > 0, kind='tournament-' + mode)
+                continue
             value_draws = all(any(x == f for f in fit) for x in drawn)
             for s_, rd in zip(sel, rounds):
                 s_ = int(s_)
